@@ -1,5 +1,6 @@
 import Capella.Lemmas.Path
 import Capella.Lemmas.Quote
+import Capella.Lemmas.TmpName
 
 /-!
 # C14 — file handlers never reach outside their root
@@ -45,12 +46,24 @@ theorem tmp_name_clean (n : Str) (h : '/' ∉ n) : CleanComp (tmpName n) := by
   · simp [tmpName, dot]
   · simp only [tmpName, dotdot, ne_eq, List.cons.injEq, true_and]
     intro hh
-    cases hn : n.take 250 with
+    cases hn : takeBytes 250 n with
     | nil => rw [hn] at hh; simp at hh
     | cons a as => rw [hn] at hh; simp at hh
   · simp only [tmpName, List.mem_cons, List.mem_append, not_or]
     refine ⟨by decide, ?_, by decide, by decide, by decide, by decide, by simp⟩
-    intro hm; exact h (List.mem_of_mem_take hm)
+    intro hm; exact h (takeBytes_subset 250 n '/' hm)
+
+/-- The temp name always fits the 255-**byte** limit of a file name, for names of any length in any
+script (the cut counts UTF-8 bytes and drops whole characters), and a name of at most 250 bytes is
+embedded unchanged. -/
+theorem tmp_name_fits (n : Str) :
+    utf8Len (tmpName n) ≤ 255 ∧ (utf8Len n ≤ 250 → tmpName n = '.' :: (n ++ ['.', 't', 'm', 'p'])) :=
+  ⟨tmpName_utf8Len_le n, fun h => by simp [tmpName, takeBytes_eq_self 250 n h]⟩
+
+/-- The pinned cut after 250 *characters* did not: 126 two-byte characters (a legal 252-byte file name)
+gave a 257-byte temp name, so such a file could never be written through a transaction. -/
+theorem pinned_tmp_name_too_long : ¬ ∀ n : Str, utf8Len (tmpNameOld n) ≤ 255 := fun h =>
+  absurd (h (List.replicate 126 'é')) (Nat.not_le.mpr tmpNameOld_too_long)
 
 /-- The composition the in-memory, zip, git and GitLab handlers used before the repair
 (`normalize(name, base=subdir)`) does *not* have the property: witness `subdir="sub"`,
